@@ -322,7 +322,7 @@ def preprocess_projects():
     """compiler.preprocess(depends:): the preprocessed source includes a build-time generated file of any name (a header, an .inc
     table, a .def list), produced by a single- or multi-output custom target that another target needs as well."""
     out = []
-    for ext in ('h', 'inc', 'def', 'tab.c'):
+    for ext, via_dep in (('h', False), ('inc', False), ('def', False), ('tab.c', False), ('h', True)):
         for multi in (False, True):
             for also in ('exe', 'alone'):
                 gen = 'gen_x.' + ext
@@ -340,8 +340,9 @@ def preprocess_projects():
                     files[gen + '.in'] = '#define GEN_X 3\n'
                 else:
                     L.append("ct = custom_target('gen', input: 'gen.in', output: '%s', command: [cp, '@INPUT@', '@OUTPUT@'])" % gen)
-                L.append("pp = cc.preprocess('a.c', output: '@PLAINNAME@.i', include_directories: include_directories('.'), depends: ct)")
-                L.append("custom_target('use_pp', input: pp, output: 'pp.copy', command: [cp, '@INPUT@', '@OUTPUT@'], build_by_default: true)")
+                L.append("pp = cc.preprocess('a.c', output: '@PLAINNAME@.i', include_directories: include_directories('.'), %s)"
+                         % ('dependencies: declare_dependency(sources: ct%s)' % ('[1]' if multi else '') if via_dep else 'depends: ct'))
+                L.append("custom_target('use_pp', input: pp, output: 'pp.copy', command: [cp, '@INPUT0@', '@OUTPUT@'], build_by_default: true)")
                 if also == 'exe':
                     L.append("executable('app', 'main.c', ct%s)" % ('[1]' if multi else ''))
                 files['meson.build'] = '\n'.join(L) + '\n'
@@ -349,7 +350,8 @@ def preprocess_projects():
                     del files[k]
                 if ext == 'tab.c' and also == 'exe':
                     continue      # a generated .c listed as a source of the executable would be compiled on its own
-                out.append(({'desc': 'preprocess: includes generated %s (%s custom target%s)' % (gen, 'second output of a two-output' if multi else 'single-output', ', also a source of an executable' if also == 'exe' else ''), 'files': files}, ()))
+                out.append(({'desc': 'preprocess: includes generated %s (%s custom target%s%s)' % (gen, 'second output of a two-output' if multi else 'single-output', ', also a source of an executable' if also == 'exe' else '',
+                                                                                                ', reached through declare_dependency(sources:)' if via_dep else ''), 'files': files}, ()))
     return out
 
 
